@@ -6,7 +6,9 @@ from decwire import cell
 
 POS = {"vo": 3.3, "rs": 0.21, "pwr": 0.35, "pwrs": 0.002, "rt": 7.5, "ii": 0.04, "iis": 0.0003, "vdrop": 0.27, "eff": 0.86,
        "iq": 0.0011, "ig": 0.0007}
-TABZ = {"eff": [0.61, 0.82, 0.9], "vdrop": [0.21, 0.3, 0.41], "ig": [1e-5, 4e-4, 9e-4]}
+# the tables of all three tabulated parameters are made of the SAME numbers (legal as an efficiency, a drop and a ground
+# current alike), so that the illegal forms of one quantity coincide number by number with legal forms of another
+TABZ = {"eff": [0.21, 0.3, 0.41], "vdrop": [0.21, 0.3, 0.41], "ig": [0.21, 0.3, 0.41]}
 
 
 def table(key, form):
